@@ -176,8 +176,23 @@ func FuncBuilder(env *Zlisp, name string,
 	if Working {
 		DumpFunction(ZlispFunction(gen.instructions), -1)
 	}
+	// make the function known before its body is compiled, as
+	// buildSexpFun does: a self call in the body has to prepare
+	// its arguments for this definition (its lazy parameters),
+	// not for none or for a previous one of the same name.
+	sfun := gen.env.MakeFunction(gen.funcname, nargs, varargs, nil, orig)
+	sfun.SetFormalSymbols(argsyms)
+	sfun.inputTypes = inHash
+	sfun.returnTypes = retHash
+	gen.knownFunctions[env.MakeSymbol(funcName).number] = sfun
+
 	for i := len(argsyms) - 1; i >= 0; i-- {
 		gen.AddInstruction(PopStackPutEnvInstr{argsyms[i]})
+		if argsyms[i].name == gen.funcname {
+			// a parameter with the function's own name shadows it
+			// in the body: calls of that name are not self calls.
+			gen.funcname = ""
+		}
 	}
 	err = gen.GenerateBegin(body)
 	if err != nil {
@@ -203,11 +218,7 @@ func FuncBuilder(env *Zlisp, name string,
 	gen.AddInstruction(ReturnInstr{nil}) // nil is the error returned
 
 	newfunc := ZlispFunction(gen.instructions)
-	sfun := gen.env.MakeFunction(gen.funcname, nargs,
-		varargs, newfunc, orig)
-	sfun.SetFormalSymbols(argsyms)
-	sfun.inputTypes = inHash
-	sfun.returnTypes = retHash
+	sfun.fun = newfunc
 
 	// tell the function scope where their function is, to
 	// provide access to the captured-closure scopes at runtime.
